@@ -13,7 +13,8 @@ THEOREMS = ["C10.C10_range", "C10.C10_servable", "C10.C10_once_per_backoff", "C1
 RACE = False
 RULE = ("scenario = a Rebalancer (scripted meters, exported API only) over a RoundRobin with 1-6 servers of configured weight 0..5000, "
         "driven by scripts of ratings (failing, recovering, flapping, all failing, exact dyadic ties at the cut, general rationals), readiness "
-        "flags, clock steps around the back-off and membership / weight changes, one real ServeHTTP per step; "
+        "flags, clock steps around the back-off and membership / weight changes, one real ServeHTTP per step (`serve-serve`: a second request issued "
+        "while the first one's weight adjustment finishes pushing weights into the balancer - the harness holds the rebalancer's last balancer upsert); "
         "non-trivial = at least two weight adjustments made by requests, one of them with an outlier present")
 ASSUMPTIONS = ["ratings are finite float64 values, modelled by exact rationals. The scenarios use (a) dyadic rationals (denominator 64) on which the float64 "
                "arithmetic of SplitFloat64 (sums, halves, x1.5) is exact, exact ties at the cut included, and (b) general rationals (denominators 3, 5, 7, 10, "
@@ -109,7 +110,8 @@ def gen(rng, tier):
                         if not _dyadic(cur[i]):
                             cur[i] = Fraction(round(cur[i] * 64), 64)
                             lines.append("rate %s %d/%d" % (_srv(i), cur[i].numerator, cur[i].denominator))
-                lines.append("serve")
+                # sometimes a second request is issued while the first one's adjustment completes its weight push
+                lines.append("serve" if rng.random() < 0.85 else "serve-serve")
                 lines.append("weights")
             r = rng.random()
             if r < 0.12:
@@ -163,7 +165,22 @@ def _proportional(w, conf):
     return all(w[a] * conf[b] == w[b] * conf[a] for a in ks for b in ks)
 
 
+def _expand(ops, outs):
+    """`serve-serve` = request, ServerWeight reading, request, ServerWeight reading (same clock)"""
+    o2, u2 = [], []
+    for l, o in zip(ops, outs):
+        if l.split() and l.split()[0] == "serve-serve" and o.count(" ; ") == 3:
+            a1, w1, a2, w2 = o.split(" ; ")
+            o2 += ["serve", "weights", "serve", "weights"]
+            u2 += [a1, w1, a2, w2]
+        else:
+            o2.append(l)
+            u2.append(o)
+    return o2, u2
+
+
 def monitor(ops, outs):
+    ops, outs = _expand(ops, outs)
     bad = []
     B = 10 * SEC
     ready0 = False
@@ -280,6 +297,7 @@ def monitor(ops, outs):
 
 
 def _adjustments(ops, outs):
+    ops, outs = _expand(ops, outs)
     n = nout = 0
     last = None
     prev_op = None
